@@ -1731,3 +1731,12 @@ TABLE["C08"] += [
     B("sub-namespace-walk-late-bound", {"N2"},
       (IP + "namespace.py", "    found_namespaces = [\n        ns for ns in sub_namespaces if ns.name == str_namespaces[0]\n    ]", "    found_namespaces = [\n        ns for ns in sub_namespaces if ns.name == str_namespaces[-1]\n    ]")),
 ]
+for _p, _r in (("C09", "W13"), ("C04", "B5")):
+    TABLE[_p] += [
+        B("const-shared-pointer-property-writable", {_r}, (PW, "                        if prop.ctype.is_const else \"readwrite\",", "                        if prop.ctype.is_const and not prop.ctype.is_shared_ptr else \"readwrite\",")),
+        N("const-raw-pointer-property-writable", (PW, "                        if prop.ctype.is_const else \"readwrite\",", "                        if prop.ctype.is_const and not (prop.ctype.is_ptr and not prop.ctype.is_shared_ptr) else \"readwrite\",")),
+    ]
+TABLE["C09"] += [
+    B("keyword-parameters-renamed-in-the-signature-only", {"W12"}, (PW, "        names = args.names()\n        types_names = [", "        names = [n + '_' if n in self.python_keywords else n for n in args.names()]\n        types_names = [")),
+    B("call-passes-the-arguments-reversed", {"W12", "W4"}, (PW, "                                 args_names=', '.join(args_names),\n                             ))\n\n            ret = ('{prefix}.{cdef}(\"{function_name}\",", "                                 args_names=', '.join(reversed(args_names)),\n                             ))\n\n            ret = ('{prefix}.{cdef}(\"{function_name}\",")),
+]
